@@ -156,6 +156,7 @@ let run (id : string) (_hdr : string list) (lines : string list list) (out : str
          (match res with
           | Ok c ->
             pr "O ok";
+            pr ("C " ^ dump c);
             eng := Some c;
             (* the storage manager creates its WAL/SSTable directories inside the database directory *)
             dir := { !dir with d_other = [ (c.c_wal_dir, []) ] };
